@@ -38,7 +38,7 @@ def main():
     tier = "quick"
     if "--thorough" in sys.argv:
         tier = "thorough"
-    dirs = [Path(a) for a in args] or sorted(Path("/tmp/mut/out").glob("C*/m*")) + sorted((VERIF / "seeded").glob("*"))
+    dirs = [Path(a).resolve() for a in args] or sorted(Path("/tmp/mut/out").glob("C*/m*")) + sorted((VERIF / "seeded").glob("*"))
     env = dict(os.environ)
     # mutated-tree runs must not overwrite the evidence of the unchanged tree
     env["XV_EVIDENCE_DIR"] = "/tmp/xv_seed_evidence"
